@@ -46,6 +46,8 @@ def _case(draw):
     if nometa:
         spec = {"gen": "flat", "nc": draw(st.sampled_from([1, 2, 5, 17, 64, 384, 385])), "fs": 30000, "ns": ns,
                 "nsync": draw(st.integers(0, 1))}
+    elif draw(st.integers(0, 7)) == 0:
+        spec = draw(gm.st_nidq(ns_range=(ns, ns)))  # NI-DAQ stream: digital word(s) + analog sync channels
     else:
         spec = draw(gm.st_spec(n_choices=(1, 2, 7, 16, 33, 100, 384), ns_range=(ns, ns), patterns=("dense", "random"),
                                allow_nosync=True))
@@ -113,7 +115,7 @@ class World:
         self.nc = spec["nc"] if self.flat else gm.n_channels(spec)
         self.ns = spec["ns"]
         self.fs = spec["fs"]
-        self.nsync = spec.get("nsync", 1)
+        self.nsync = spec["dw"] if spec["gen"] == "nidq" else spec.get("nsync", 1)
         self.D = rec.make_data(self.ns, self.nc, case["content_seed"], case["content_mode"], nsync=self.nsync)
         self.bytes = self.D.tobytes()
         self.sha = hashlib.sha1(self.bytes).hexdigest()
@@ -126,6 +128,20 @@ class World:
         self.cbin = self.bin.with_suffix(".cbin")
         self.ch = self.bin.with_suffix(".ch")
         self.meta = self.bin.with_suffix(".meta")
+        # what the reader of the uncompressed original reports as sync (digital lines + thresholded analog lines): the
+        # reference every later reader - compressed or not - must reproduce ("indistinguishable through the reader")
+        self.sync_ref = None
+        if not self.flat and self.nsync:
+            sr0 = self.reader(self.bin, kind="C02.open_reference")
+            if sr0 is not ctx.CRASH:
+                try:
+                    r = ctx.call("C02.sync_reference", sr0.read_sync, slice(0, self.ns))
+                    self.sync_ref = None if r is ctx.CRASH else np.array(r)
+                finally:
+                    try:
+                        sr0.close()
+                    except Exception:  # noqa
+                        pass
         self.nchunks = int(np.ceil(self.ns / case["chunk"]))
         self.cur_chunk = case["chunk"]  # chunk size of the .cbin currently on disk (changes when a compress op uses its own)
 
@@ -268,6 +284,18 @@ class World:
                 if not ctx.check(isinstance(got, IndexError), "C02.oob_no_error",
                                  lambda: f"{label}: sr[{i}, :] returned data of shape {np.shape(got)} for a recording of {self.ns} samples "
                                          "(NumPy indexing and the uncompressed file raise IndexError)"):
+                    return
+            if self.sync_ref is not None:
+                # the default form of read(): (data, sync) - the sync block must be the one the uncompressed original gives
+                r = ctx.call("C02.read", lambda: sr.read(slice(0, self.ns), slice(None), True))
+                if r is ctx.CRASH:
+                    return
+                if not ctx.check(isinstance(r, tuple) and len(r) == 2 and np.shape(r[0]) == A.shape and np.array_equal(r[0], A),
+                                 "C02.values", lambda: f"{label}: read(..., sync=True) data part differs from the written data"):
+                    return
+                if not ctx.check(np.shape(r[1]) == self.sync_ref.shape and np.array_equal(r[1], self.sync_ref), "C02.sync_values",
+                                 lambda: f"{label}: sync block of read(..., sync=True) has shape {np.shape(r[1])}, the uncompressed "
+                                         f"original gives {self.sync_ref.shape} (or values differ)"):
                     return
             for s_, c in ((slice(None, None, 3), slice(1, None, 2)), (slice(None), [0, self.nc - 1]), (slice(self.ns // 2, None, -1), -1)):
                 got = ctx.call("C02.read", lambda: sr[s_, c])
